@@ -58,6 +58,15 @@ def replay_kernel(ctx, c, h):
     rc, out = r.returncode, r.stdout
     hit = sanitizer_hit(rc, out) or rc == 5
     what = 'extract%s(cap %d/%d) on %d bytes: %s' % ('_fixed_width' if mode else '_element', capt, capv, n, _short(out))
+    mres = _re.search(r'RESULT (\d+) of', out)
+    if mode == 1 and mres and not hit:
+        # functional contract of the fixed-width extractor (the harness oracle): digits '=' val_sz bytes SOH, all inside the input
+        vs = int(c.get('cx_valsz', 0)); i = 0
+        while i < n and 48 <= data[i] <= 57: i += 1
+        exp = 0
+        if 0 < i < capt and i < n and data[i] == 61 and vs < capv and n >= i + 1 + vs + 1 and data[i + 1 + vs] == 1: exp = i + 1 + vs + 1
+        if int(mres.group(1)) != exp:
+            hit = True; what += ' || reference: a fixed-width token of %d value bytes %s -> expected result %d' % (vs, 'ends inside the input with its separator' if exp else 'is not available', exp)
     if sanitizer_hit(rc, out) and capt == 24:
         # the same shape at the real size: digits/value stretched by 2048/24, fed to Message::factory
         nd = int(c.get('cx_nd', 0)); vl = int(c.get('cx_vlen', 0)); f = 2048 / 24.0
